@@ -14,7 +14,19 @@
    (finding F-NAV-2) -- cross_boundary reports failure, or find_next_step stops at an internal
    surface of the union, in a geometry that contains a daughter universe whose boundary is a
    union (World.union_boundary, detected from the input by the oracle).  A failed crossing or
-   an invented boundary anywhere else is C03.CrossFailed / C03.NoInventedBoundary. *)
+   an invented boundary anywhere else is C03.CrossFailed / C03.NoInventedBoundary.
+
+   Named deviation SafetyIgnoresCentredQuadric (finding F-SAFE-1): the reported safety exceeds the true
+   distance (or is not finite) at a point for which the oracle reports a sphere / cylinder FACE of the
+   point's volume, at some level of its chain, whose gradient vanishes at the local point (the centre of
+   the sphere, the axis of the cylinder: Rec.centre).  An over-estimate anywhere else is
+   C11.SafetyConservative.
+
+   SafetyMax = find_safety(radius): judged like Safety (what it reports is still a lower bound of the true
+   distance).  MoveTo = move_internal(position), legal inside the safety sphere last reported at the
+   point (Rec.within; anything else is a harness fault).  Copy = a second track initialised from this one
+   (DetailedInitializer) with a new direction (on a boundary: the same direction), which then is the
+   track: the protocol phase is unchanged, the cached step is gone. *)
 EXTENDS Integers, Sequences, FiniteSets, TLC, Json, IOUtils
 
 TraceLog == ndJsonDeserialize(IOEnv.TRACE)
@@ -24,9 +36,9 @@ VARIABLES l, ph, has, nb, ok, ub, viol, dev, stat
 vars == <<l, ph, has, nb, ok, ub, viol, dev, stat>>
 Rec == TraceLog[l]
 
-Ops == {"Find", "FindMax", "MoveI", "MoveB", "Cross", "SetDir", "Safety"}
+Ops == {"Find", "FindMax", "MoveI", "MoveB", "Cross", "SetDir", "Safety", "SafetyMax", "MoveTo", "Copy"}
 Kinds == Ops \cup {"Init", "judged", "unjudged", "facts_U", "rays", "sphere_pts", "safety_pos", "histories", "near_bounds",
-                   "turns_exiting", "turns_reentrant", "turns_near_tangent"}
+                   "turns_exiting", "turns_reentrant", "turns_near_tangent", "centre_probes"}
 
 Init ==
   /\ l = 1 /\ ph = "O" /\ has = FALSE /\ nb = FALSE /\ ok = FALSE /\ ub = FALSE
@@ -149,21 +161,38 @@ TSetDir ==
   /\ UNCHANGED <<ph, ub>>
 
 TSafety ==
-  /\ l > 1 /\ Rec.e = "Safety" /\ ph = "I"
-  /\ LET cl == (IF Rec.sneg THEN {"C11.SafetyNonNegative"} ELSE {})
-               \cup (IF Rec.rays_ok THEN {} ELSE {"C11.SafetyConservative"})
-               \* s <= every confirmed upper bound of the true distance to the volume's boundary (oracle:
-               \* closest points of the surrounding surfaces, confirmed by point location)
-               \cup (IF Rec.near_ok THEN {} ELSE {"C11.SafetyConservative"})
-               \cup IfF(Rec.sphere_ok, "C11.SafetyConservative")
+  /\ l > 1 /\ Rec.e \in {"Safety", "SafetyMax"} /\ ph = "I"
+  /\ LET \* the reported value exceeds the true distance to the boundary of the point's volume: it is not
+         \* finite (the world is bounded), or a ray shot from the point met a boundary sooner, or
+         \* s > a confirmed upper bound of the true distance (oracle: closest points of the surrounding
+         \* surfaces, confirmed by point location), or a point of the safety sphere lies in another volume
+         over == ~Rec.sfin \/ ~Rec.rays_ok \/ ~Rec.near_ok \/ Rec.sphere_ok = "F"
+         devs == IF over /\ Rec.centre THEN {"SafetyIgnoresCentredQuadric"} ELSE {}
+         cl == (IF Rec.sneg THEN {"C11.SafetyNonNegative"} ELSE {})
+               \cup (IF over /\ ~Rec.centre THEN {"C11.SafetyConservative"} ELSE {})
                \cup StateClauses(Rec, "I")
-     IN /\ viol' = Bump(viol, IF ok THEN cl ELSE {}) /\ dev' = dev
-        /\ stat' = [stat EXCEPT !["Safety"] = @ + 1, ![IF ok THEN "judged" ELSE "unjudged"] = @ + 1,
+     IN /\ viol' = Bump(viol, IF ok THEN cl ELSE {}) /\ dev' = Bump(dev, IF ok THEN devs ELSE {})
+        /\ stat' = [stat EXCEPT ![Rec.e] = @ + 1, ![IF ok THEN "judged" ELSE "unjudged"] = @ + 1,
                                 !["facts_U"] = @ + NumU(Rec), !["rays"] = @ + Rec.nrays,
                                 !["sphere_pts"] = @ + Rec.nsphere, !["near_bounds"] = @ + Rec.nnear,
-                                !["safety_pos"] = @ + (IF Rec.spos THEN 1 ELSE 0)]
+                                !["safety_pos"] = @ + (IF Rec.spos THEN 1 ELSE 0),
+                                !["centre_probes"] = @ + (IF Rec.centre THEN 1 ELSE 0)]
         /\ ok' = (ok /\ cl = {})
   /\ UNCHANGED <<ph, has, nb, ub>>
+
+\* move_internal(position) inside the safety sphere reported at the point
+TMoveTo ==
+  /\ l > 1 /\ Rec.e = "MoveTo" /\ ph = "I" /\ Rec.within
+  /\ LET cl == StateClauses(Rec, "I") IN Judge(cl, {}, "MoveTo", NumU(Rec)) /\ ok' = (ok /\ cl = {})
+  /\ ph' = "I" /\ has' = FALSE /\ nb' = FALSE
+  /\ UNCHANGED ub
+
+\* the track handed over to a copy of itself (DetailedInitializer)
+TCopy ==
+  /\ l > 1 /\ Rec.e = "Copy" /\ ph \in {"I", "Bm", "Bp"}
+  /\ LET cl == StateClauses(Rec, ph) IN Judge(cl, {}, "Copy", NumU(Rec)) /\ ok' = (ok /\ cl = {})
+  /\ has' = FALSE /\ nb' = FALSE
+  /\ UNCHANGED <<ph, ub>>
 
 \* a straight ray that is still inside after 400 crossings
 TStuck ==
@@ -177,7 +206,7 @@ TClose ==
 
 Next ==
   /\ l <= N /\ l' = l + 1
-  /\ TWorld \/ TInit \/ TFind \/ TMoveI \/ TMoveB \/ TCross \/ TSetDir \/ TSafety \/ TStuck \/ TClose
+  /\ TWorld \/ TInit \/ TFind \/ TMoveI \/ TMoveB \/ TCross \/ TSetDir \/ TSafety \/ TMoveTo \/ TCopy \/ TStuck \/ TClose
 Spec == Init /\ [][Next]_vars
 
 Accepted ==
